@@ -167,8 +167,20 @@ def conduct(ctx, deep, jobs, configs, histories, seeds, all_lib_seeds, libkeys=N
       rj = []
       for k, job in enumerate(h):
         inp = J.input_path(samples, os.path.join(root, "in"), job["content"], job["iext"])
-        out = os.path.join(outdir, "o_%d_%d%s" % (rid, k, job["oext"]))
-        rj.append({"argv": J.argv_for(job, inp, out, configs, os.path.join(root, "cfg")), "out": out})
+        if job["oext"].startswith("/"):
+          os.makedirs(os.path.join(outdir, "o_%d_%d" % (rid, k)), exist_ok=True)
+          out = os.path.join(outdir, "o_%d_%d" % (rid, k), job["oext"][1:])      # the whole name, no dot anywhere in it
+        else:
+          out = os.path.join(outdir, "o_%d_%d%s" % (rid, k, job["oext"]))
+        # a file named without any dot is given as a bare relative name, from inside its directory (an absolute path would
+        # carry the dots of the directories above it)
+        cwd = ""
+        inarg, outarg = inp, out
+        if job["oext"].startswith("/"):
+          cwd, outarg = os.path.dirname(out), os.path.basename(out)
+        elif job["iext"].startswith("/"):
+          cwd, inarg = os.path.dirname(inp), os.path.basename(inp)
+        rj.append({"argv": J.argv_for(job, inarg, outarg, configs, os.path.join(root, "cfg")), "out": out, "cwd": cwd})
       rs.append({"id": rid, "jobs": rj})
     return rs
   runs_by_seed = {seed: make_runs(seed) for seed in seeds}
